@@ -9,14 +9,17 @@ import (
 	"crypto/rand"
 	"crypto/rsa"
 	"crypto/x509"
+	"crypto/x509/pkix"
 	"encoding/pem"
 	"errors"
 	"fmt"
+	"math/big"
 	"reflect"
 	"regexp"
 	"slices"
 	"strconv"
 	"sync"
+	"time"
 
 	"github.com/pion/webrtc/v4"
 	"github.com/pion/webrtc/v4/pkg/rtcerr"
@@ -71,7 +74,21 @@ type c39Case struct {
 //	                                  x509 certificate held with another key
 //	10 (k4, x509 of 7)                the same for RSA: another RSA key k4 with certificate 7's x509
 //	11 (k0, x509 of 7)                an ECDSA key with the RSA certificate 7's x509 (key type differs)
+//
+// Expiry (T0 = the instant the pool is built; certificates 0-11 expire about a month later).
+// k5 is a fresh ECDSA key; x509 certificates 12-14 are self-signed with it and go through
+// x509.CreateCertificate / x509.ParseCertificate / webrtc.CertificateFromX509.
+//
+//	12 (k5,e)                         NotAfter = T0 - 1h: expired
+//	13 (k5,v)                         NotAfter = T0 + 1h: not yet expired
+//	14 (k5,z)                         NotAfter = the zero time.Time: Expires().IsZero()
+//	15 (k0, x509 of 0, reads T0-1h)   CertificateFromX509(k0, &copy) where copy is certificate 0's parsed
+//	                                  x509 certificate with the NotAfter FIELD overwritten: same key, same
+//	                                  DER bytes (Equals says equal), Expires() says expired
+//	16 (k5, x509 of 12, reads T0+1h)  the other way round: the expired certificate 12 whose NotAfter field
+//	                                  was overwritten with a future instant
 var (
+	c39T0      time.Time // the clock reading the model is given as `now`
 	c39Certs   []webrtc.Certificate
 	c39KeyIDs  = map[string]int{} // PKCS#8 bytes of a private key -> key id
 	c39X509IDs = map[string]int{} // DER bytes of an x509 certificate -> id (pool index of its first holder)
@@ -80,6 +97,16 @@ var (
 // what a Certificate is, read off the bytes it exports -- independent of
 // Certificate.Equals: (key type 0 none/1 RSA/2 ECDSA, key id, x509 id);
 // anything not in the pool (the certificate pion generates itself) is id 100
+// seconds from 0001-01-01 00:00:00 UTC to what Expires() returns (0 = the zero time.Time)
+func c39ExpiresSec(c webrtc.Certificate) int64 { return c.Expires().Unix() + 62135596800 }
+
+// the same instant in nanoseconds, as a Gallina Z literal
+func c39Nanos(t time.Time) string {
+	n := new(big.Int).Mul(big.NewInt(t.Unix()+62135596800), big.NewInt(1000000000))
+	n.Add(n, big.NewInt(int64(t.Nanosecond())))
+	return n.String()
+}
+
 func c39Ident(c webrtc.Certificate) (id [3]int) {
 	defer func() {
 		if recover() != nil { // the zero Certificate{} has nothing to export
@@ -143,6 +170,10 @@ func c39BuildPool() {
 		must(err)
 		keys = append(keys, rk)
 	}
+	k5, err := ecdsa.GenerateKey(elliptic.P256(), rand.Reader)
+	must(err)
+	keys = append(keys, k5)
+	c39T0 = time.Now()
 	for i, k := range keys {
 		b, err := x509.MarshalPKCS8PrivateKey(k)
 		must(err)
@@ -159,7 +190,7 @@ func c39BuildPool() {
 		blk, _ := pem.Decode([]byte(text))
 		return blk.Bytes
 	}
-	pool := make([]webrtc.Certificate, 12)
+	pool := make([]webrtc.Certificate, 17)
 	pool[0], pool[1], pool[2] = gen(0), gen(1), gen(2)
 	pool[3] = webrtc.Certificate{}
 	pool[4], pool[5] = gen(0), gen(1)
@@ -176,10 +207,34 @@ func c39BuildPool() {
 	must(err)
 	pool[10] = webrtc.CertificateFromX509(keys[4], x7)
 	pool[11] = webrtc.CertificateFromX509(keys[0], x7)
-	for _, i := range []int{0, 1, 2, 4, 5, 7, 8} {
+	selfSigned := func(serial int64, notAfter time.Time) *x509.Certificate {
+		tpl := x509.Certificate{SerialNumber: big.NewInt(serial), Subject: pkix.Name{CommonName: "c39"},
+			NotBefore: c39T0.Add(-48 * time.Hour), NotAfter: notAfter}
+		der, err := x509.CreateCertificate(rand.Reader, &tpl, &tpl, k5.Public(), k5)
+		must(err)
+		x, err := x509.ParseCertificate(der)
+		must(err)
+		return x
+	}
+	xe := selfSigned(12, c39T0.Add(-time.Hour))
+	xv := selfSigned(13, c39T0.Add(time.Hour))
+	xz := selfSigned(14, time.Time{})
+	if !xz.NotAfter.IsZero() || !xe.NotAfter.Before(c39T0) || !xv.NotAfter.After(c39T0) {
+		panic("validity of the self-signed certificates is not what was asked for")
+	}
+	pool[12] = webrtc.CertificateFromX509(k5, xe)
+	pool[13] = webrtc.CertificateFromX509(k5, xv)
+	pool[14] = webrtc.CertificateFromX509(k5, xz)
+	x0copy := *x0
+	x0copy.NotAfter = xe.NotAfter
+	pool[15] = webrtc.CertificateFromX509(keys[0], &x0copy)
+	xecopy := *xe
+	xecopy.NotAfter = xv.NotAfter
+	pool[16] = webrtc.CertificateFromX509(k5, &xecopy)
+	for _, i := range []int{0, 1, 2, 4, 5, 7, 8, 12, 13, 14} {
 		c39X509IDs[string(derOf(pool[i]))] = i
 	}
-	if len(c39X509IDs) != 7 {
+	if len(c39X509IDs) != 10 {
 		panic("certificates generated for one key are not distinct")
 	}
 	c39Certs = pool
@@ -268,9 +323,35 @@ func c39ServerID(s webrtc.ICEServer) int {
 	return -1
 }
 
+// (key type, key id, x509 id, Expires() in seconds since year 1); the expiry of
+// the certificate pion generates itself is derived from its own time.Now(): -1
 func c39CertV(c webrtc.Certificate) V {
 	id := c39Ident(c)
-	return VL{VZ(int64(id[0])), VZ(int64(id[1])), VZ(int64(id[2]))}
+	exp := c39ExpiresSec(c)
+	if id[2] == 100 {
+		exp = -1
+	}
+	return VL{VZ(int64(id[0])), VZ(int64(id[1])), VZ(int64(id[2])), VZ(exp)}
+}
+
+// expired at t, said without After/IsZero: a NotAfter that is not the zero
+// instant and lies strictly before t
+func c39Expired(c webrtc.Certificate, t time.Time) bool {
+	e := c.Expires()
+	return (e.Unix() != -62135596800 || e.Nanosecond() != 0) && e.Compare(t) < 0
+}
+
+// position by position the same Expires()
+func c39ExpiryEqual(a, b []webrtc.Certificate) bool {
+	if len(a) != len(b) {
+		return false
+	}
+	for i := range a {
+		if !a[i].Expires().Equal(b[i].Expires()) {
+			return false
+		}
+	}
+	return true
 }
 
 func c39Project(c webrtc.Configuration) V {
@@ -303,13 +384,19 @@ func c39Snapshot(c webrtc.Configuration) webrtc.Configuration {
 // the same certificates in the same order: same key bytes and same x509
 // bytes, entry by entry (the zero Certificate{} is the same as nothing).
 // Deliberately not Certificate.Equals.
-func c39CertsEqual(a, b []webrtc.Certificate) bool {
+func c39CertsEqual(a, b []webrtc.Certificate) bool { return c39CertsEq(a, b, false) }
+
+// for before/after comparisons of the stored list a stored zero Certificate{}
+// is unchanged when it still is the zero Certificate{}
+func c39CertsUnchanged(a, b []webrtc.Certificate) bool { return c39CertsEq(a, b, true) }
+
+func c39CertsEq(a, b []webrtc.Certificate, zeroIsZero bool) bool {
 	if len(a) != len(b) {
 		return false
 	}
 	for i := range a {
 		ia, ib := c39Ident(a[i]), c39Ident(b[i])
-		if ia[0] == 0 || ia != ib {
+		if (ia[0] == 0 && !zeroIsZero) || ia != ib {
 			return false
 		}
 		if ia[1] == 100 || ia[2] == 100 { // outside the pool: compare what they export
@@ -328,8 +415,10 @@ func c39Diff(a, b webrtc.Configuration) string {
 	switch {
 	case a.PeerIdentity != b.PeerIdentity:
 		return "peer-identity"
-	case !c39CertsEqual(a.Certificates, b.Certificates):
+	case !c39CertsUnchanged(a.Certificates, b.Certificates):
 		return "certificates"
+	case !c39ExpiryEqual(a.Certificates, b.Certificates):
+		return "certificate-expiry"
 	case a.BundlePolicy != b.BundlePolicy:
 		return "bundle-policy"
 	case a.RTCPMuxPolicy != b.RTCPMuxPolicy:
@@ -404,9 +493,41 @@ func c39ErrClass(err error) string {
 func c39Run(c c39Case) (V, Verdict) {
 	c39InitCerts()
 	api := newQuietAPI(nil)
-	pc, err := api.NewPeerConnection(c39Make(c.Init))
+	initCfg := c39Make(c.Init)
+	// ---- direct oracle for NewPeerConnection: an expired certificate anywhere
+	// in the list is refused with InvalidAccess (before the pool size is looked
+	// at); nothing else in these configurations is a reason to refuse
+	tBefore := time.Now()
+	pc, err := api.NewPeerConnection(initCfg)
+	tAfter := time.Now()
+	expiredBefore, expiredAfter := false, false
+	for _, x := range initCfg.Certificates {
+		expiredBefore = expiredBefore || c39Expired(x, tBefore)
+		expiredAfter = expiredAfter || c39Expired(x, tAfter)
+	}
+	if expiredBefore != expiredAfter {
+		panic("a pool certificate expires during the run: the margins in c39BuildPool are wrong")
+	}
 	if err != nil {
-		return VL{VL{VZ(c39ClassCode[c39ErrClass(err)])}, VL{}}, Fail("initial-configuration-rejected", err.Error())
+		class := c39ErrClass(err)
+		obs := VL{VL{VZ(c39ClassCode[class])}, VL{}}
+		switch {
+		case expiredBefore && class == "InvalidAccess":
+			return obs, Pass("init-rejected/expired-certificate", true)
+		case expiredBefore:
+			return obs, Fail("expired-certificate-rejected-with-"+class, err.Error())
+		case c.Init.Pool > 1 && class == "NotSupported":
+			return obs, Pass("init-rejected/pool-size", false)
+		}
+		if class == "InvalidAccess" && len(c.Init.Servers) == 0 { // no ICE server to blame: the certificate check
+			for _, x := range initCfg.Certificates {
+				if x.Expires().IsZero() {
+					return obs, Fail("zero-expiry-certificate-rejected-as-expired", err.Error())
+				}
+			}
+			return obs, Fail("unexpired-certificate-rejected-as-expired", err.Error())
+		}
+		return obs, Fail("initial-configuration-rejected", err.Error())
 	}
 	defer pc.Close() //nolint
 	verdict := Pass("", false)
@@ -415,9 +536,30 @@ func c39Run(c c39Case) (V, Verdict) {
 			verdict = v
 		}
 	}
+	if expiredBefore {
+		fail(Fail("expired-certificate-accepted-by-new-peer-connection", fmt.Sprintf("certificates %v", c.Init.Certs)))
+	}
+	if c.Init.Pool > 1 {
+		fail(Fail("pool-size-above-one-accepted", fmt.Sprint(c.Init.Pool)))
+	}
+	for i, x := range pc.GetConfiguration().Certificates {
+		if c39Expired(x, tBefore) {
+			fail(Fail("new-peer-connection-stored-expired-certificate", fmt.Sprintf("position %d", i)))
+		}
+		if len(initCfg.Certificates) == 0 && !x.Expires().After(tAfter) {
+			fail(Fail("generated-certificate-not-valid", x.Expires().String()))
+		}
+		if len(initCfg.Certificates) > 0 && !x.Expires().Equal(initCfg.Certificates[i].Expires()) {
+			fail(Fail("new-peer-connection-stored-other-expiry", fmt.Sprintf("position %d", i)))
+		}
+	}
 	obs := VL{VL{VZ(0), c39Project(pc.GetConfiguration())}}
 	var steps VL
 	closed, haveDC := false, false
+	namedExpired, storedZero := false, false
+	for _, x := range initCfg.Certificates {
+		storedZero = storedZero || x.Expires().IsZero()
+	}
 	nSet, nRejected, nAccepted := 0, 0, 0
 	phases := map[string]bool{}
 	certSit := map[string]bool{}
@@ -477,8 +619,16 @@ func c39Run(c c39Case) (V, Verdict) {
 			phases[phase+"/"+class] = true
 			// ---- direct oracle ----
 			if len(newCfg.Certificates) > 0 {
-				certSit[c39CertSituation(before.Certificates, newCfg.Certificates)] = true
+				sit := c39CertSituation(before.Certificates, newCfg.Certificates)
+				if sit == "same" && !c39ExpiryEqual(before.Certificates, newCfg.Certificates) {
+					sit = "same-but-other-expiry"
+				}
+				certSit[sit] = true
 			}
+			for _, x := range newCfg.Certificates {
+				namedExpired = namedExpired || c39Expired(x, time.Now())
+			}
+
 			attempt := ""
 			switch {
 			case newCfg.PeerIdentity != "" && newCfg.PeerIdentity != before.PeerIdentity:
@@ -500,7 +650,11 @@ func c39Run(c c39Case) (V, Verdict) {
 			}
 			if err != nil {
 				nRejected++
-				if d := c39Diff(before, after); d != "" {
+				if d := c39Diff(before, after); d == "certificate-expiry" {
+					fail(Fail("rejected-call-changed-certificate-expiry", fmt.Sprintf(
+						"step %d: error %v but the stored certificates now expire %v instead of %v", k, err,
+						c39ExpiresList(after.Certificates), c39ExpiresList(before.Certificates))))
+				} else if d != "" {
 					fail(Fail("rejected-call-changed-"+d, fmt.Sprintf("step %d: error %v but %s changed", k, err, d)))
 				}
 			} else {
@@ -510,6 +664,11 @@ func c39Run(c c39Case) (V, Verdict) {
 					if c39Diff(b2, a2) == d {
 						fail(Fail("accepted-call-changed-"+d, fmt.Sprintf("step %d: %s changed by a successful call", k, d)))
 					}
+				}
+				if c39Diff(before, after) == "certificate-expiry" {
+					fail(Fail("accepted-call-changed-certificate-expiry", fmt.Sprintf(
+						"step %d: the stored certificates now expire %v instead of %v", k,
+						c39ExpiresList(after.Certificates), c39ExpiresList(before.Certificates))))
 				}
 			}
 			switch {
@@ -541,7 +700,13 @@ func c39Run(c c39Case) (V, Verdict) {
 	if verdict.OK {
 		verdict.NonTrivial = nSet >= 1
 		verdict.Class = fmt.Sprintf("sets%d/rejected%d/accepted%d/phases%d", min(nSet, 4), min(nRejected, 3), min(nAccepted, 3), len(phases))
-		for _, k := range []string{"same-x509-other-key", "reordered-or-duplicated", "same-key-other-x509", "other", "same"} {
+		if namedExpired {
+			verdict.Class += "/names-expired"
+		}
+		if storedZero {
+			verdict.Class += "/stored-zero-expiry"
+		}
+		for _, k := range []string{"same-but-other-expiry", "same-x509-other-key", "reordered-or-duplicated", "same-key-other-x509", "other", "same"} {
 			if certSit[k] { // the most specific certificate situation the case contains
 				verdict.Class += "/certs:" + k
 				break
@@ -549,6 +714,14 @@ func c39Run(c c39Case) (V, Verdict) {
 		}
 	}
 	return obs, verdict
+}
+
+func c39ExpiresList(cs []webrtc.Certificate) []string {
+	out := make([]string, len(cs))
+	for i, c := range cs {
+		out[i] = c.Expires().UTC().Format(time.RFC3339)
+	}
+	return out
 }
 
 func c39ServerCoq(s c39Server) string {
@@ -568,7 +741,7 @@ func c39ConfigCoq(c c39Config) string {
 	cs := make([]string, len(c.Certs))
 	for i, x := range c.Certs {
 		id := c39Ident(c39Certs[x])
-		cs[i] = fmt.Sprintf("mkcert %d %d %d", id[0], id[1], id[2])
+		cs[i] = fmt.Sprintf("mkcert %d %d %d %s", id[0], id[1], id[2], c39Nanos(c39Certs[x].Expires()))
 	}
 	return fmt.Sprintf("(mkc %s %d %d %d %s %s %d %d %s)", CoqList(sv), c.Policy, c.Bundle, c.RTCPMux,
 		CoqString(c.Identity), CoqList(cs), c.Pool, c.Semantics, CoqBool(c.AlwaysDC))
@@ -586,7 +759,10 @@ func c39Coq(c c39Case) string {
 			steps[i] = "CClose"
 		}
 	}
-	return "(" + c39ConfigCoq(c.Init) + ", " + CoqList(steps) + ")"
+	c39InitCerts()
+	// now: the instant the pool was built; every pool certificate expires an hour
+	// or more before or after it, the real time.Now() of the run lies minutes after it
+	return "(" + c39Nanos(c39T0) + ", " + c39ConfigCoq(c.Init) + ", " + CoqList(steps) + ")"
 }
 
 // ---- generation ----
@@ -700,7 +876,11 @@ func (g *c39Gen) newConfig(cur c39Config) c39Config {
 }
 
 // another certificate for the same key (a renewal), both ways
-var c39Renewed = map[int][]int{0: {4}, 4: {0, 6}, 6: {4}, 1: {5}, 5: {1}, 7: {8}, 8: {7}}
+var c39Renewed = map[int][]int{0: {4}, 4: {0, 6}, 6: {4}, 1: {5}, 5: {1}, 7: {8}, 8: {7},
+	12: {13, 14}, 13: {12, 14, 16}, 14: {13, 12}, 16: {13, 14}}
+
+// the same key and the same x509 bytes through an object that reports another expiry
+var c39OtherExpiry = map[int]int{0: 15, 6: 15, 15: 0, 16: 12, 12: 16}
 
 // the same certificate through another object (PEM round trip)
 var c39Reimported = map[int]int{0: 6, 6: 0}
@@ -721,7 +901,11 @@ func c39ChangeCerts(r *Rand, cur []int) []int {
 		return false
 	}
 	if len(cur) > 0 {
-		switch r.Intn(8) {
+		switch r.Intn(9) {
+		case 8: // the stored certificate through an object whose NotAfter field was overwritten
+			if subst(func(x int) (int, bool) { v, ok := c39OtherExpiry[x]; return v, ok }) {
+				return out
+			}
 		case 0, 1, 2: // same key, other x509 certificate, at one position
 			if subst(func(x int) (int, bool) {
 				if l := c39Renewed[x]; len(l) > 0 {
@@ -762,13 +946,14 @@ func c39ChangeCerts(r *Rand, cur []int) []int {
 			return out[:len(out)-1]
 		}
 	}
-	return Pick(r, [][]int{{0}, {1}, {2}, {4}, {7}, {8}, {0, 1}, {1, 0}, {0, 4}, {0, 1, 2}, {3}, {0, 3}, {9}, {6}, {10}, {11}})
+	return Pick(r, [][]int{{0}, {1}, {2}, {4}, {7}, {8}, {0, 1}, {1, 0}, {0, 4}, {0, 1, 2}, {3}, {0, 3}, {9}, {6}, {10}, {11}, {12}, {13}, {14}, {15}, {16}})
 }
 
 func c39GenCase(r *Rand, i int) c39Case {
 	g := &c39Gen{r: r}
 	init := c39Config{Servers: g.servers(false), Policy: r.Intn(3), Bundle: r.Intn(4), RTCPMux: r.Intn(3),
-		Identity: Pick(r, []string{"", "", "a", "b"}), Certs: Pick(r, [][]int{{}, {}, {0}, {0}, {1}, {0, 1}, {2, 0}, {4}, {6}, {7}, {8, 1}, {0, 4}, {5, 7, 0}}),
+		Identity: Pick(r, []string{"", "", "a", "b"}), Certs: Pick(r, [][]int{{}, {}, {0}, {0}, {1}, {0, 1}, {2, 0}, {4}, {6}, {7}, {8, 1}, {0, 4}, {5, 7, 0},
+			{13}, {14}, {16}, {14, 13}, {0, 13}, {0}, {13}, {14, 0}, {12}, {0, 12}, {16, 1}}),
 		Pool: Pick(r, []int{0, 0, 1}), Semantics: Pick(r, []int{0, 0, 2}), AlwaysDC: r.Chance(1, 4)}
 	c := c39Case{Init: init}
 	n := r.Range(1, 5)
@@ -813,7 +998,7 @@ func init() {
 	set := func(c c39Config) c39Step { return c39Step{K: 0, New: &c} }
 	Register(Spec[c39Case]{
 		ID: "C39", Suite: "hist", CoqImports: []string{"Check.C39"},
-		CoqType: "config * list istep", CoqRun: "Check.C39.run",
+		CoqType: "Z * config * list istep", CoqRun: "Check.C39.run",
 		Quick: 600, Thorough: 25000, Parallel: 8,
 		Corpus: func() []c39Case {
 			base := c39Config{Servers: []c39Server{}, Certs: []int{0}, Identity: "a", Bundle: 2, RTCPMux: 1, Pool: 1}
@@ -844,6 +1029,36 @@ func init() {
 				{Init: c39Config{Servers: []c39Server{}, Certs: []int{0, 1}}, Steps: []c39Step{
 					set(c39Config{Servers: []c39Server{}, Certs: []int{1, 0}}), set(c39Config{Servers: []c39Server{}, Certs: []int{0, 0}}),
 					set(c39Config{Servers: []c39Server{}, Certs: []int{9, 1}}), set(c39Config{Servers: []c39Server{}, Certs: []int{0, 1}})}},
+				// ---- certificate expiry ----
+				// NewPeerConnection: an expired certificate, alone; second in the list together with a pool
+				// size that is refused later (InvalidAccess, not NotSupported); the pool size alone
+				{Init: c39Config{Servers: []c39Server{}, Certs: []int{12}}, Steps: []c39Step{}},
+				{Init: c39Config{Servers: []c39Server{}, Certs: []int{0, 12}, Pool: 2}, Steps: []c39Step{}},
+				{Init: c39Config{Servers: []c39Server{}, Certs: []int{}, Pool: 2}, Steps: []c39Step{}},
+				// a parsed certificate whose NotAfter field was overwritten: the field is what counts
+				{Init: c39Config{Servers: []c39Server{}, Certs: []int{15}}, Steps: []c39Step{}},
+				// not yet expired: stored; SetConfiguration with it, with the expired and the never
+				// expiring certificate of the same key (rejected as different certificates)
+				{Init: c39Config{Servers: []c39Server{}, Certs: []int{13}}, Steps: []c39Step{
+					set(c39Config{Servers: []c39Server{}, Certs: []int{13}}), set(c39Config{Servers: []c39Server{}, Certs: []int{12}}),
+					set(c39Config{Servers: []c39Server{}, Certs: []int{14}}), {K: 1}, set(c39Config{Servers: []c39Server{}, Certs: []int{12}})}},
+				// zero NotAfter never expires
+				{Init: c39Config{Servers: []c39Server{}, Certs: []int{14, 0}}, Steps: []c39Step{
+					set(c39Config{Servers: []c39Server{}, Certs: []int{14, 0}}), set(c39Config{Servers: []c39Server{}, Certs: []int{13, 0}})}},
+				// the zero Certificate{} has a zero Expires(): stored; no list is ever equal to it
+				{Init: c39Config{Servers: []c39Server{}, Certs: []int{3}}, Steps: []c39Step{
+					set(c39Config{Servers: []c39Server{}, Certs: []int{3}}), set(c39Config{Servers: []c39Server{}, Certs: []int{}, Policy: 1})}},
+				// WITNESSES of the repaired defect (known/C39.txt, fixed:): the stored certificate named
+				// through an object that reports another expiry, in a call that is rejected for its bundle
+				// policy / for an invalid ICE server / accepted: SetConfiguration used to store the
+				// argument's objects before its remaining checks; the stored expiry must stay
+				{Init: base, Steps: []c39Step{set(c39Config{Servers: []c39Server{}, Certs: []int{15}, Bundle: 3})}},
+				{Init: base, Steps: []c39Step{set(c39Config{Servers: []c39Server{{ID: 1, URLs: []int{0}}}, Certs: []int{15}})}},
+				{Init: base, Steps: []c39Step{set(c39Config{Servers: []c39Server{}, Certs: []int{15}})}},
+				// SetConfiguration accepts a certificate that reports it has expired (same key, same DER as
+				// the stored one) -- and used to store it
+				{Init: c39Config{Servers: []c39Server{}, Certs: []int{16}}, Steps: []c39Step{
+					set(c39Config{Servers: []c39Server{}, Certs: []int{12}})}},
 			}
 		},
 		Gen: c39GenCase, Run: c39Run, Coq: c39Coq, Shrink: c39Shrink,
